@@ -43,7 +43,10 @@ def gen_seq_case(rng):
         if dl[c]:
             prog.append(("SSetDelay", s, c, dl[c]))
         if rng.random() < 0.4:
-            prog.append(("SSetFilter", s, c, rng.choice(["HP", "LP"]), 1, SR * 0.2, None))
+            if rng.random() < 0.5:
+                prog.append(("SSetFilter", s, c, rng.choice(["HP", "LP"]), 1, SR * 0.2, None))
+            else:
+                prog.append(("SSetFilter", s, c, rng.choice(["HP", "LP"]), rng.choice([1, 2]), None, 1 / (SR * 0.25)))
     cp, scratch = regs.S(), regs.S()
     prog.append(("SCopy", s, cp))
     calls = []
@@ -115,3 +118,20 @@ def nontrivial_key(case, impl):
     if len(set(case["calls"])) < 3:
         return None
     return (case["kind"], tuple(case["calls"]), tuple(o[0] for o in case["prog"][:case["n_setup"]]))
+
+
+def extra_checks(ctx):
+    """Alias-graph correspondence: every row of alias/table.json against the real objects (id() graph, contents)."""
+    import subprocess
+    import sys
+    import os
+    from harness import alias
+    root = os.path.dirname(os.path.dirname(os.path.dirname(os.path.abspath(__file__))))
+    if subprocess.run([sys.executable, os.path.join(root, "alias", "gen_coq.py"), "--check"]).returncode != 0:
+        ctx["report"]("coq/Model/AliasTable.v is not what alias/gen_coq.py generates from alias/table.json", {}, False)
+    rounds = 2 if ctx["tier"] == "quick" else 25
+    n, fails, sample = alias.check_tables(ctx["seed"] + 7, rounds)
+    for f in fails[:3]:
+        ctx["report"]("effect table row violated by the implementation: " + f, {"alias_failure": f, "all": fails}, True)
+    return {"evaluations": n, "distinct_nontrivial": len(alias.TABLE["mutators"]) + len(alias.TABLE["readonly"]) + len(alias.TABLE["derive"]),
+            "samples": [{"alias_row": sample}], "alias_rows_checked": n}
